@@ -23,8 +23,11 @@ scratch = tempfile.mkdtemp(prefix="vp-mut-")
 try:
     subprocess.run("git -C /repo archive HEAD | tar -x -C %s" % scratch, shell=True, check=True)
     if a.patch.startswith("rev:"):
-        diff = subprocess.run(["git", "-C", "/repo", "show", a.patch[4:]], capture_output=True, check=True).stdout
-        r = subprocess.run(["git", "apply", "-R", "-"], input=diff, cwd=scratch, capture_output=True)
+        for commit in a.patch[4:].split(","):  # several commits: newest first
+            diff = subprocess.run(["git", "-C", "/repo", "show", commit], capture_output=True, check=True).stdout
+            r = subprocess.run(["git", "apply", "-R", "-"], input=diff, cwd=scratch, capture_output=True)
+            if r.returncode != 0:
+                break
     elif a.patch == "none":
         r = subprocess.run(["true"], capture_output=True)
     else:
